@@ -474,7 +474,10 @@ def pull_server_name(buf: Buffer) -> str:
             raise AlertIllegalParameter(
                 f"ServerName has an unknown name type {name_type}"
             )
-        return pull_opaque(buf, 2).decode("ascii")
+        try:
+            return pull_opaque(buf, 2).decode("ascii")
+        except UnicodeDecodeError:
+            raise AlertIllegalParameter("ServerName is not an ASCII string")
 
 
 def push_server_name(buf: Buffer, server_name: str) -> None:
